@@ -158,7 +158,7 @@ Lemma fnmatchb_iff : forall o e, fnmatchb o e = true <-> FnMatch o e.
 Proof.
   intros o e; unfold fnmatchb, FnMatch.
   rewrite andb_true_iff, orb_true_iff, !andb_true_iff, fkind_eqb_iff, !N.eqb_eq,
-    (forall2b_iff _ _ parammatchb_iff), tycarriedb_iff.
+    (forall2b_iff _ _ parammatchb_iff), tycarriedb_iff. unfold OptRun.
   destruct (fn_ovl o); split.
   - intros [Hk _]; split; [exact Hk | intro H; discriminate].
   - intros [Hk _]; split; [exact Hk | left; reflexivity].
